@@ -228,6 +228,12 @@ func TestC18(t *testing.T) {
 			rc{"id-host", "ids-differ", obj("https://example.com/1", "Note"), obj("https://other.example.com/1", "Note")},
 			rc{"id-path", "ids-differ", obj("https://example.com/1", "Note"), obj("https://example.com/2", "Note")},
 			rc{"id-query", "ids-differ", obj("https://example.com/1?a=1", "Note"), obj("https://example.com/1?a=2", "Note")},
+			rc{"id-query-subset", "ids-differ", obj("https://example.com/1", "Note"), obj("https://example.com/1?a=1", "Note")},
+			rc{"id-query-superset", "ids-differ", obj("https://example.com/1?a=1", "Note"), obj("https://example.com/1", "Note")},
+			rc{"id-repeated-key", "ids-differ", obj("https://example.com/1?a=1", "Note"), obj("https://example.com/1?a=1&a=2", "Note")},
+			rc{"id-repeated-key-rev", "ids-differ", obj("https://example.com/1?a=1&a=2", "Note"), obj("https://example.com/1?a=1", "Note")},
+			rc{"id-port", "ids-differ", obj("https://example.com/1", "Note"), obj("https://example.com:8443/1", "Note")},
+			rc{"id-longer-path", "ids-differ", obj("https://example.com/1", "Note"), obj("https://example.com/1/2", "Note")},
 			rc{"id-empty-vs-set", "ids-differ", obj("", "Note"), obj("https://example.com/2", "Note")},
 			rc{"type-differs", "types-differ", obj("https://example.com/1", "Note"), obj("https://example.com/1", "Article")},
 			rc{"type-differs-from-empty", "types-differ", obj("https://example.com/1", "Note"), obj("https://example.com/1", "")},
